@@ -9,6 +9,7 @@ pub mod gen_vm;
 pub mod iters;
 pub mod model;
 pub mod props;
+pub mod ptfuzz;
 pub mod rngs;
 pub mod selharness;
 pub mod stats;
